@@ -101,20 +101,29 @@ class C17(Property):
     THOROUGH_BUDGET_S = 600
     RULE = ('a case is one whole history over a register file of OneToOne (or ManyToMany, or one FrozenDict) '
             'instances: constructors from dict / pairs / one-shot iterator / kwargs / another instance (either '
-            'side), copy, and every mutator applied through the forward object or through .inv; after every '
-            'command every instance is dumped on both sides. Exhaustive: all histories of <= 2 commands (thorough: '
-            'also all of exactly 3 from two start states, budget permitting) over 2 object ids from several start '
-            'states; random histories up to 25 (thorough 80) '
-            'commands over <= 6 ids with ==-aliases (1/1.0/True); adversarial generators for overwrite/evict, '
-            'self- and cross-instance update, replace-onto-existing. Non-trivial = some command evicted or '
-            'merged an existing pair / read from another instance / raised; distinct = distinct history.')
+            'side; OneToOne.unique too), copy, and every mutator applied through the forward object or through the '
+            '.inv object taken ONCE when the instance was created (a held reference); after every command every '
+            'instance is dumped on both sides (the held inverse included, with `x.inv is held`). Order of the '
+            'stream: adversarial cases; round-2 families - FrozenDict hash-then-updated()/fromkeys() results '
+            'against a fresh twin built from their own items, equal FrozenDicts reached along 8 routes (ctor, '
+            'dict, updated chains with hash() on every intermediate, overwrite-in-place, pickle, deepcopy, copy) '
+            'in every insertion order of <= 3 items, unique-from-instance, emptied-then-refilled OneToOne through the '
+            'held inverse, BIG arguments (9..40 pairs over 10/16/32 ids, a few of 60..300 pairs over 160 ids; '
+            'ManyToMany value sets and FrozenDicts of that size) and ManyToMany sets of 1..129 values travelling to '
+            'another instance and then mutated on either one; exhaustive: all histories of <= 2 commands '
+            '(thorough: also all of exactly 3 from two start states, budget permitting) over 2 object ids from '
+            'several start states; random histories up to 25 (thorough 80) commands over <= 10 ids with '
+            '==-aliases (1/1.0/True, 0/0.0/False, None). Non-trivial = some command evicted or merged an '
+            'existing pair / read from another instance / raised; distinct = distinct history.')
     ASSUMPTIONS = ['keys and values are hashable, == is an equivalence consistent with hash, no NaN',
                    'update/constructor arguments are dicts, lists of pairs, one-shot iterators of pairs, keyword '
                    'arguments or another instance of the same class (non-dict Mapping objects are outside the model)',
                    'FrozenDict: "mutating dict operation" = __setitem__ __delitem__ __ior__ update setdefault pop '
                    'popitem clear (re-running __init__ is not an operation of the statement)']
-    CORRESPONDENCE_NAME = 'C17.Driver (OneToOne/ManyToMany/FrozenDict models) vs boltons.dictutils'
-    EXTRA_TRUSTED = ['C17 translator (regen): AST scan of class FrozenDict for names bound to _raise_frozen_typeerror']
+    CORRESPONDENCE_NAME = ('C17.Driver (OneToOne / ManyToMany by value AND heap-level with set-object identities / '
+                           'FrozenDict models) vs boltons.dictutils')
+    EXTRA_TRUSTED = ['C17 translator (regen): AST scan of class FrozenDict for names bound to _raise_frozen_typeerror, '
+                     'and of class OneToOne for the methods it defines itself']
 
     # ------------------------------------------------------------------ translator
     def regen(self):
@@ -136,13 +145,19 @@ class C17(Property):
         # a method the class defines itself is not the raiser any more
         own = {n.name for n in cls.body if isinstance(n, ast.FunctionDef)}
         blocked = [b for b in blocked if b not in own]
+        # OneToOne is a dict subclass: a mutating dict method the class body does not define itself is inherited
+        # and writes one side only (that is what `|=` did before d30f0de)
+        oto = [n for n in tree.body if isinstance(n, ast.ClassDef) and n.name == 'OneToOne'][0]
+        oto_own = [n.name for n in oto.body if isinstance(n, ast.FunctionDef)]
         text = ('/- GENERATED by harness/bv/props/c17.py (regen) from boltons/dictutils.py - do not edit.\n'
                 '   FrozenDict: the names the class body binds to `_raise_frozen_typeerror`, and the exception\n'
-                '   class that function raises. -/\n'
+                '   class that function raises.  OneToOne: the methods the class body defines itself. -/\n'
                 'namespace C17.Generated\n\n'
                 'def frozenBlocked : List String :=\n  [%s]\n\n'
                 'def frozenRaises : String := "%s"\n\n'
-                'end C17.Generated\n') % (', '.join('"%s"' % b for b in blocked), raises or '?')
+                'def otoDefined : List String :=\n  [%s]\n\n'
+                'end C17.Generated\n') % (', '.join('"%s"' % b for b in blocked), raises or '?',
+                                          ', '.join('"%s"' % b for b in oto_own))
         return {'C17_Frozen.lean': text}
 
     # ------------------------------------------------------------------ generation
@@ -850,7 +865,9 @@ class C17(Property):
     def impl_m2m(self, case):
         from boltons.dictutils import ManyToMany
         regs, out = [], []
-        probe = sorted(i for i in self._ids_in(case['ops'], set(range(NSMALL))) if i < len(OBJ))
+        used = {i for i in self._ids_in(case['ops'], set()) if i < len(OBJ)}
+        # reader probes: every id the history mentions plus two it does not
+        probe = sorted(used | set([i for i in range(NSMALL) if i not in used][:2]))
 
         def held(x):
             return [x, x.inv]
@@ -1017,6 +1034,7 @@ class C17(Property):
                     other = self._fd_route(FrozenDict, [(mk(k, n + j), fmk(v, j)) for j, (k, v) in enumerate(op[1])],
                                            op[2] if len(op) > 2 else 'ctor')
                     rec['eq'] = 1 if (fd == other and other == fd and not (fd != other)) else 0
+                    rec['otype'] = type(other).__name__
                     rec['h1'], rec['h2'] = self._hash(fd), self._hash(other)
                     rec['h2b'] = self._hash(other)
                 elif o == 'updated':
@@ -1138,6 +1156,10 @@ class C17(Property):
                 elif o == 'eq':
                     if not rec['eq']:
                         h = '-'
+                    elif rec.get('otype', 'FrozenDict') != 'FrozenDict':
+                        # a pickle / copy route that hands out some other equal mapping: the statement asks for an
+                        # equal value, not for a type, and says nothing about that object's hash
+                        h = '1' if isinstance(rec['h1'], int) else ('X' if rec['h1'] == 'FrozenHashError' else '0')
                     elif isinstance(rec['h1'], int) and isinstance(rec['h2'], int):
                         h = '1' if rec['h1'] == rec['h2'] else '0'
                     elif rec['h1'] == rec['h2'] == 'FrozenHashError':
@@ -1449,7 +1471,7 @@ class C17(Property):
                 want = 1 if other == ref else 0
                 if rec['eq'] != want:
                     return Failure('eq', '== against %r is %r' % (op[1], rec['eq']))
-                if want:
+                if want and rec.get('otype', 'FrozenDict') == 'FrozenDict':
                     if [k for k, _ in op[1]] != [k for k, _ in orig]:
                         self._nt = True
                     if hashable:
